@@ -78,7 +78,7 @@ PROPS = {
     ),
     "C05": dict(
         title="Fallible operations return errors: no panics, no out-of-range results",
-        verus=["posix", "tzif", "rounders", "sdur", "zoned", "span", "civiladd", "civildiff", "ambig", "isoweek", "spanround", "zonedround", "tsarith", "offround"],
+        verus=["posix", "tzif", "rounders", "sdur", "zoned", "span", "civiladd", "civildiff", "ambig", "isoweek", "spanround", "zonedround", "tsarith", "offround", "dtdiff"],
         all_fns=True,
         kani_quick=["c01_civil", "c02_wrappers"],
         kani_thorough=["c10_model"],
@@ -101,10 +101,10 @@ PROPS = {
     ),
     "C07": dict(
         title="Differences are reversible, balanced and sign-consistent for every largest unit",
-        verus=["civildiff", "tsarith"],
+        verus=["civildiff", "tsarith", "dtdiff"],
         kani_quick=[], kani_thorough=["c10_model"],
         design_ref="DESIGN.md section 4, C07",
-        level_text="Date differences (Date::until/since, DateDifference::since_with_largest_unit) for every pair of dates and every largest unit: the result equals an explicit specification diff_spec, is reversible w.r.t. the C08 addition semantics, sign-consistent, has no unit above the largest and is balanced; panic-free. Timestamp and Time differences (until/since on the rounding-free configuration, duration_until/duration_since) for every pair and every largest unit: result == the exact nanosecond distance balanced up to the largest unit, reversible, one sign, exact Err condition (unit tsarith). DateTime and Zoned differences are NOT decided by this check yet (Zoned::until has the open finding F7).",
+        level_text="Date differences (Date::until/since, DateDifference::since_with_largest_unit) for every pair of dates and every largest unit: the result equals an explicit specification diff_spec, is reversible w.r.t. the C08 addition semantics, sign-consistent, has no unit above the largest and is balanced; panic-free. Timestamp and Time differences (until/since on the rounding-free configuration, duration_until/duration_since) for every pair and every largest unit: result == the exact nanosecond distance balanced up to the largest unit, reversible, one sign, exact Err condition (unit tsarith). Civil DateTime differences (unit dtdiff: DateTimeDifference::until_with_largest_unit, DateTime::until/since on the rounding-free configuration, duration_until/since) for every pair and every largest unit: result == explicit spec (date difference with the one-day borrow joined with the balanced time remainder), a + s == b through the C08 addition contract (composition harness verif_c07_roundtrip), one sign, nothing above the largest unit, balanced up to the month-end clamping exception that Temporal also has; exact Err condition. Zoned differences are NOT decided by this check (Zoned::until has the open finding F7).",
     ),
     "C09": dict(
         title="Datetimes print to RFC 3339/9557 text that parses back to the same value",
